@@ -12,7 +12,7 @@ import (
 
 func init() {
 	register("C20", propMeta{
-		Explanation: "Decides by exhaustive effect reachability over the repository's call graph (class-hierarchy resolution of interface calls, so every light client and application callback is included): from the consensus entry set (every Msg handler, application callbacks, InitGenesis, governance proposal handlers and, through interface calls, the light-client methods) no repository function is reachable that reads the wall clock, a random source, the file system, the environment, the network, the number of CPUs/goroutines, starts a goroutine or blocks in a multi-way select, except for sites in a reasoned table (log-only timers and result-independent prefetching inside the vendored ethash code, and its disk/full-DAG branches which are unreachable because header verification constructs ethash with an empty Config and fulldag=false - that configuration is itself checked); every range over a map in reachable code is order-insensitive (only inserts into maps, or appends to a slice that is sorted before use) or is a reasoned table entry; no reachable code writes a package-level variable or a part of one, inserts into a package-level map, stores into a package-level sync.Map / sync/atomic value, or mutates a package-level math/big value in place (state that would survive a failed or repeated execution in the same process). NOT decided: determinism of third-party code (SDK, cometbft, go-ethereum are not descended into), byte equality of results.",
+		Explanation: "Decides by exhaustive effect reachability over the repository's call graph (class-hierarchy resolution of interface calls, so every light client and application callback is included): from the consensus entry set (every Msg handler, application callbacks, InitGenesis, governance proposal handlers and, through interface calls, the light-client methods) no repository function is reachable that reads the wall clock, a random source, the file system, the environment, the network, the number of CPUs/goroutines, starts a goroutine or blocks in a multi-way select, except for sites in a reasoned table (log-only timers and result-independent prefetching inside the vendored ethash code, and its disk/full-DAG branches which are unreachable because header verification constructs ethash with an empty Config and fulldag=false - that configuration is itself checked); every range over a map in reachable code is order-insensitive (only inserts into maps, or appends to a slice that is sorted before use) or is a reasoned table entry; no reachable code writes a package-level variable or a part of one, inserts into a package-level map, stores into a package-level sync.Map / sync/atomic value, mutates a package-level math/big value in place, or writes memory hanging off a Keeper / msgServer / AppModule object (state that would survive a failed or repeated execution in the same process). NOT decided: determinism of third-party code (SDK, cometbft, go-ethereum are not descended into), byte equality of results.",
 		Assumptions: []string{"dependencies outside the repository are deterministic", "class-hierarchy call graph over-approximates dynamic dispatch"},
 		Trusted:     commonTrusted,
 	}, ruleC20)
